@@ -2,6 +2,7 @@ import LeptosModel.Model.Macro
 import LeptosModel.Proofs.Html
 /-! Helper lemmas for Theorems/C18.lean: tokens and trimming, attribute normal forms, the views the two
 macro paths correspond to, and their structure. -/
+set_option linter.unusedSimpArgs false
 namespace Leptos.Macro
 open Leptos.Html
 
@@ -305,6 +306,15 @@ def tattrsOK (attrs : List TAttr) : Bool :=
   attrs.all tattrOK && decide (plainNames attrs).Nodup &&
     decide ((attrs.filter isCls).length ≤ 1) && decide ((attrs.filter isStyle).length ≤ 1)
 
+theorem sortKey_plain (d : Bool) (n v : Str) : sortKey (.plain d n v) = 1 := rfl
+theorem sortKey_flag (n : Str) : sortKey (.flag n) = 1 := rfl
+theorem sortKey_boolDyn (n : Str) (b : Bool) : sortKey (.boolDyn n b) = 1 := rfl
+theorem sortKey_cls (d : Bool) (v : Str) : sortKey (.cls d v) = 0 := rfl
+theorem sortKey_style (d : Bool) (v : Str) : sortKey (.style d v) = 0 := rfl
+theorem sortKey_clsToggle (n : Str) (b : Bool) : sortKey (.clsToggle n b) = 1 := rfl
+theorem sortKey_clsTuple (n : Str) (b : Bool) : sortKey (.clsTuple n b) = 2 := rfl
+theorem sortKey_styleKV (d : Bool) (n v : Str) : sortKey (.styleKV d n v) = 1 := rfl
+
 theorem plainFlat_append (a b : List Attr) : plainFlat (a ++ b) = plainFlat a ++ plainFlat b := by
   induction a with
   | nil => rfl
@@ -317,13 +327,13 @@ theorem plainFlat_key0 (attrs : List TAttr) :
     plainFlat ((attrs.filter (fun a => sortKey a = 0)).map builderAttr) = [] := by
   induction attrs with
   | nil => rfl
-  | cons a r ih => cases a <;> simp [List.filter_cons, sortKey, builderAttr, plainFlat, ih]
+  | cons a r ih => cases a <;> simp [List.filter_cons, sortKey_plain, sortKey_flag, sortKey_boolDyn, sortKey_cls, sortKey_style, sortKey_clsToggle, sortKey_clsTuple, sortKey_styleKV, builderAttr, plainFlat, ih]
 
 theorem plainFlat_key2 (attrs : List TAttr) :
     plainFlat ((attrs.filter (fun a => sortKey a = 2)).map builderAttr) = [] := by
   induction attrs with
   | nil => rfl
-  | cons a r ih => cases a <;> simp [List.filter_cons, sortKey, builderAttr, plainFlat, ih]
+  | cons a r ih => cases a <;> simp [List.filter_cons, sortKey_plain, sortKey_flag, sortKey_boolDyn, sortKey_cls, sortKey_style, sortKey_clsToggle, sortKey_clsTuple, sortKey_styleKV, builderAttr, plainFlat, ih]
 
 theorem plainFlat_key1 (attrs : List TAttr) :
     plainFlat ((attrs.filter (fun a => sortKey a = 1)).map builderAttr) = plainDen attrs := by
@@ -331,8 +341,8 @@ theorem plainFlat_key1 (attrs : List TAttr) :
   | nil => rfl
   | cons a r ih =>
     cases a with
-    | boolDyn n b => cases b <;> simp [List.filter_cons, sortKey, builderAttr, plainFlat, plainDen, ih]
-    | _ => simp [List.filter_cons, sortKey, builderAttr, plainFlat, plainDen, ih]
+    | boolDyn n b => cases b <;> simp [List.filter_cons, sortKey_plain, sortKey_flag, sortKey_boolDyn, sortKey_cls, sortKey_style, sortKey_clsToggle, sortKey_clsTuple, sortKey_styleKV, builderAttr, plainFlat, plainDen, ih]
+    | _ => simp [List.filter_cons, sortKey_plain, sortKey_flag, sortKey_boolDyn, sortKey_cls, sortKey_style, sortKey_clsToggle, sortKey_clsTuple, sortKey_styleKV, builderAttr, plainFlat, plainDen, ih]
 
 theorem plainFlat_builder (attrs : List TAttr) : plainFlat (builderAttrs attrs) = plainDen attrs := by
   simp [builderAttrs, sortAttrs, plainFlat_append, plainFlat_key0, plainFlat_key1, plainFlat_key2]
@@ -348,10 +358,10 @@ theorem plainDen_names (attrs : List TAttr) : ((plainDen attrs).map (·.1)).Subl
     cases a with
     | boolDyn n b =>
       cases b
-      · simpa [plainDen, plainNames] using List.Sublist.cons _ ih
-      · simpa [plainDen, plainNames] using List.Sublist.cons₂ _ ih
-    | plain d n v => simpa [plainDen, plainNames] using List.Sublist.cons₂ _ ih
-    | flag n => simpa [plainDen, plainNames] using List.Sublist.cons₂ _ ih
+      · simpa [plainDen, plainNames] using List.Sublist.cons n ih
+      · simpa [plainDen, plainNames] using List.Sublist.cons_cons n ih
+    | plain d n v => simpa [plainDen, plainNames] using List.Sublist.cons_cons n ih
+    | flag n => simpa [plainDen, plainNames] using List.Sublist.cons_cons n ih
     | _ => simpa [plainDen, plainNames] using ih
 
 theorem plainNames_ok (attrs : List TAttr) (h : attrs.all tattrOK = true) :
@@ -476,5 +486,278 @@ theorem attrsOK_builder (attrs : List TAttr) (h : tattrsOK attrs = true) : attrs
   simp only [builderAttrs, List.mem_map] at hb
   obtain ⟨a, ha, rfl⟩ := hb
   exact attrClean_builder a (List.all_eq_true.mp hall a (mem_sortAttrs ha))
+
+
+/-! ### attributes of the inert path, as a tachys view: `class`/`style` literals are printed in place,
+like ordinary attributes -/
+
+def inertAttrView : TAttr → Attr
+  | .plain _ n v => .plain n v
+  | .flag n => .bool n true
+  | .boolDyn n b => .bool n b
+  | .cls _ v => .plain sClass v
+  | .style _ v => .plain sStyle v
+  | .clsToggle n _ => .bool n false
+  | .clsTuple n _ => .bool n false
+  | .styleKV _ n _ => .bool n false
+
+theorem classBuf_inert (attrs : List TAttr) : classBuf (attrs.map inertAttrView) = [] := by
+  induction attrs with
+  | nil => rfl
+  | cons a r ih => cases a <;> simp [inertAttrView, classBuf, ih]
+
+theorem styleBuf_inert (attrs : List TAttr) : styleBuf (attrs.map inertAttrView) = [] := by
+  induction attrs with
+  | nil => rfl
+  | cons a r ih => cases a <;> simp [inertAttrView, styleBuf, ih]
+
+theorem plainPart_inert (attrs : List TAttr) (hi : attrs.all attrInert = true) :
+    plainPart (attrs.map inertAttrView) = inertAttrs attrs := by
+  induction attrs with
+  | nil => rfl
+  | cons a r ih =>
+    simp only [List.all_cons, Bool.and_eq_true] at hi
+    have ih' := ih hi.2
+    cases a with
+    | plain d n v =>
+      have : d = false := by simpa [attrInert] using hi.1
+      subst this
+      simp [inertAttrView, plainPart, inertAttrs, inertAttr, ih']
+    | flag n => simp [inertAttrView, plainPart, inertAttrs, inertAttr, ih']
+    | cls d v =>
+      have : d = false := by simpa [attrInert] using hi.1
+      subst this
+      simp [inertAttrView, plainPart, inertAttrs, inertAttr, ih', sClassEq, sClass]
+    | style d v =>
+      have : d = false := by simpa [attrInert] using hi.1
+      subst this
+      simp [inertAttrView, plainPart, inertAttrs, inertAttr, ih', sStyle]
+    | boolDyn n b => simp [attrInert] at hi
+    | clsToggle n b => simp [attrInert] at hi
+    | clsTuple n b => simp [attrInert] at hi
+    | styleKV d n v => simp [attrInert] at hi
+
+/-- **attributes, inert path (bytes)**: the macro-time attribute printer writes what tachys would write
+for the same attributes taken as ordinary ones -/
+theorem attrsHtml_inert (attrs : List TAttr) (hi : attrs.all attrInert = true) :
+    attrsHtml (attrs.map inertAttrView) = inertAttrs attrs := by
+  simp [attrsHtml, classBuf_inert, styleBuf_inert, plainPart_inert attrs hi]
+
+theorem expectedAttrs_inert (attrs : List TAttr) :
+    expectedAttrs (attrs.map inertAttrView) = plainFlat (attrs.map inertAttrView) := by
+  simp [expectedAttrs, classBuf_inert, styleBuf_inert]
+
+theorem classDen_append (a b : List TAttr) : classDen (a ++ b) = classDen a ++ classDen b := by
+  induction a with
+  | nil => rfl
+  | cons x a ih =>
+    cases x with
+    | clsToggle n on => cases on <;> simp [classDen, ih]
+    | clsTuple n on => cases on <;> simp [classDen, ih]
+    | _ => simp [classDen, ih]
+
+theorem styleSrc_append (a b : List TAttr) : styleSrc (a ++ b) = styleSrc a ++ styleSrc b := by
+  induction a with
+  | nil => rfl
+  | cons x a ih => cases x <;> simp [styleSrc, ih]
+
+theorem sort_inert (attrs : List TAttr) (hi : attrs.all attrInert = true) :
+    classDen (sortAttrs attrs) = classDen attrs ∧ styleSrc (sortAttrs attrs) = styleSrc attrs := by
+  have h0 : classDen (attrs.filter (fun a => sortKey a = 0)) = classDen attrs ∧
+      styleSrc (attrs.filter (fun a => sortKey a = 0)) = styleSrc attrs ∧
+      classDen (attrs.filter (fun a => sortKey a = 1)) = [] ∧
+      styleSrc (attrs.filter (fun a => sortKey a = 1)) = [] ∧
+      classDen (attrs.filter (fun a => sortKey a = 2)) = [] ∧
+      styleSrc (attrs.filter (fun a => sortKey a = 2)) = [] := by
+    induction attrs with
+    | nil => simp [classDen, styleSrc]
+    | cons a r ih =>
+      simp only [List.all_cons, Bool.and_eq_true] at hi
+      obtain ⟨i1, i2, i3, i4, i5, i6⟩ := ih hi.2
+      cases a <;>
+        simp_all [List.filter_cons, sortKey_plain, sortKey_flag, sortKey_boolDyn, sortKey_cls, sortKey_style,
+          sortKey_clsToggle, sortKey_clsTuple, sortKey_styleKV, classDen, styleSrc, attrInert]
+  obtain ⟨a1, a2, a3, a4, a5, a6⟩ := h0
+  simp [sortAttrs, classDen_append, styleSrc_append, a1, a2, a3, a4, a5, a6]
+
+theorem no_cls (r : List TAttr) (hi : r.all attrInert = true) (hok : r.all tattrOK = true)
+    (h : (r.filter isCls).length = 0) :
+    classPart (plainFlat (r.map inertAttrView)) = [] ∧ classDen r = [] := by
+  induction r with
+  | nil => simp [classPart, plainFlat, classDen]
+  | cons a r ih =>
+    simp only [List.all_cons, Bool.and_eq_true] at hi hok
+    cases a with
+    | cls d v => simp [List.filter_cons, isCls] at h
+    | plain d n v =>
+      have hr : (r.filter isCls).length = 0 := by simpa [List.filter_cons, isCls] using h
+      obtain ⟨h1, h2⟩ := ih hi.2 hok.2 hr
+      have hn : n ≠ sClass := by
+        have := hok.1; simp only [tattrOK, plainNameOK, Bool.and_eq_true, bne_iff_ne, ne_eq] at this; exact this.1.1.2
+      simp [inertAttrView, plainFlat, classPart, classDen, hn, h1, h2]
+    | flag n =>
+      have hr : (r.filter isCls).length = 0 := by simpa [List.filter_cons, isCls] using h
+      obtain ⟨h1, h2⟩ := ih hi.2 hok.2 hr
+      have hn : n ≠ sClass := by
+        have := hok.1; simp only [tattrOK, plainNameOK, Bool.and_eq_true, bne_iff_ne, ne_eq] at this; exact this.1.2
+      simp [inertAttrView, plainFlat, classPart, classDen, hn, h1, h2]
+    | style d v =>
+      have hr : (r.filter isCls).length = 0 := by simpa [List.filter_cons, isCls] using h
+      obtain ⟨h1, h2⟩ := ih hi.2 hok.2 hr
+      simp [inertAttrView, plainFlat, classPart, classDen, sClass_ne_sStyle.symm, h1, h2]
+    | boolDyn n b => simp [attrInert] at hi
+    | clsToggle n b => simp [attrInert] at hi
+    | clsTuple n b => simp [attrInert] at hi
+    | styleKV d n v => simp [attrInert] at hi
+
+theorem no_style (r : List TAttr) (hi : r.all attrInert = true) (hok : r.all tattrOK = true)
+    (h : (r.filter isStyle).length = 0) :
+    stylePart (plainFlat (r.map inertAttrView)) = [] ∧ styleSrc r = [] := by
+  induction r with
+  | nil => simp [stylePart, plainFlat, styleSrc]
+  | cons a r ih =>
+    simp only [List.all_cons, Bool.and_eq_true] at hi hok
+    cases a with
+    | style d v => simp [List.filter_cons, isStyle] at h
+    | plain d n v =>
+      have hr : (r.filter isStyle).length = 0 := by simpa [List.filter_cons, isStyle] using h
+      obtain ⟨h1, h2⟩ := ih hi.2 hok.2 hr
+      have hn : n ≠ sStyle := by
+        have := hok.1; simp only [tattrOK, plainNameOK, Bool.and_eq_true, bne_iff_ne, ne_eq] at this; exact this.1.2
+      simp [inertAttrView, plainFlat, stylePart, styleSrc, hn, h1, h2]
+    | flag n =>
+      have hr : (r.filter isStyle).length = 0 := by simpa [List.filter_cons, isStyle] using h
+      obtain ⟨h1, h2⟩ := ih hi.2 hok.2 hr
+      have hn : n ≠ sStyle := by
+        have := hok.1; simp only [tattrOK, plainNameOK, Bool.and_eq_true, bne_iff_ne, ne_eq] at this; exact this.2
+      simp [inertAttrView, plainFlat, stylePart, styleSrc, hn, h1, h2]
+    | cls d v =>
+      have hr : (r.filter isStyle).length = 0 := by simpa [List.filter_cons, isStyle] using h
+      obtain ⟨h1, h2⟩ := ih hi.2 hok.2 hr
+      simp [inertAttrView, plainFlat, stylePart, styleSrc, sClass_ne_sStyle, h1, h2]
+    | boolDyn n b => simp [attrInert] at hi
+    | clsToggle n b => simp [attrInert] at hi
+    | clsTuple n b => simp [attrInert] at hi
+    | styleKV d n v => simp [attrInert] at hi
+
+theorem classPart_inert (attrs : List TAttr) (hi : attrs.all attrInert = true) (hok : attrs.all tattrOK = true)
+    (h : (attrs.filter isCls).length ≤ 1) :
+    classPart (plainFlat (attrs.map inertAttrView)) = optAttr sClass (joinSep ' ' (classDen attrs)) := by
+  induction attrs with
+  | nil => simp [classPart, plainFlat, classDen, joinSep, optAttr]
+  | cons a r ih =>
+    simp only [List.all_cons, Bool.and_eq_true] at hi hok
+    cases a with
+    | cls d v =>
+      have hr : (r.filter isCls).length = 0 := by
+        simp only [List.filter_cons, isCls, if_true, List.length_cons] at h; omega
+      obtain ⟨h1, h2⟩ := no_cls r hi.2 hok.2 hr
+      simp [inertAttrView, plainFlat, classPart, classDen, h1, h2, normClass]
+    | plain d n v =>
+      have hr : (r.filter isCls).length ≤ 1 := by simpa [List.filter_cons, isCls] using h
+      have hn : n ≠ sClass := by
+        have := hok.1; simp only [tattrOK, plainNameOK, Bool.and_eq_true, bne_iff_ne, ne_eq] at this; exact this.1.1.2
+      simp [inertAttrView, plainFlat, classPart, classDen, hn, ih hi.2 hok.2 hr]
+    | flag n =>
+      have hr : (r.filter isCls).length ≤ 1 := by simpa [List.filter_cons, isCls] using h
+      have hn : n ≠ sClass := by
+        have := hok.1; simp only [tattrOK, plainNameOK, Bool.and_eq_true, bne_iff_ne, ne_eq] at this; exact this.1.2
+      simp [inertAttrView, plainFlat, classPart, classDen, hn, ih hi.2 hok.2 hr]
+    | style d v =>
+      have hr : (r.filter isCls).length ≤ 1 := by simpa [List.filter_cons, isCls] using h
+      simp [inertAttrView, plainFlat, classPart, classDen, sClass_ne_sStyle.symm, ih hi.2 hok.2 hr]
+    | boolDyn n b => simp [attrInert] at hi
+    | clsToggle n b => simp [attrInert] at hi
+    | clsTuple n b => simp [attrInert] at hi
+    | styleKV d n v => simp [attrInert] at hi
+
+theorem normStyle_nil : normStyle [] = [] := by decide
+
+theorem stylePart_inert (attrs : List TAttr) (hi : attrs.all attrInert = true) (hok : attrs.all tattrOK = true)
+    (h : (attrs.filter isStyle).length ≤ 1) :
+    stylePart (plainFlat (attrs.map inertAttrView)) = optAttr sStyle (normStyle (styleSrc attrs)) := by
+  induction attrs with
+  | nil => simp [stylePart, plainFlat, styleSrc, normStyle_nil, optAttr]
+  | cons a r ih =>
+    simp only [List.all_cons, Bool.and_eq_true] at hi hok
+    cases a with
+    | style d v =>
+      have hr : (r.filter isStyle).length = 0 := by
+        simp only [List.filter_cons, isStyle, if_true, List.length_cons] at h; omega
+      obtain ⟨h1, h2⟩ := no_style r hi.2 hok.2 hr
+      have := normStyle_semi v
+      simp [inertAttrView, plainFlat, stylePart, styleSrc, h1, h2, this]
+    | plain d n v =>
+      have hr : (r.filter isStyle).length ≤ 1 := by simpa [List.filter_cons, isStyle] using h
+      have hn : n ≠ sStyle := by
+        have := hok.1; simp only [tattrOK, plainNameOK, Bool.and_eq_true, bne_iff_ne, ne_eq] at this; exact this.1.2
+      simp [inertAttrView, plainFlat, stylePart, styleSrc, hn, ih hi.2 hok.2 hr]
+    | flag n =>
+      have hr : (r.filter isStyle).length ≤ 1 := by simpa [List.filter_cons, isStyle] using h
+      have hn : n ≠ sStyle := by
+        have := hok.1; simp only [tattrOK, plainNameOK, Bool.and_eq_true, bne_iff_ne, ne_eq] at this; exact this.2
+      simp [inertAttrView, plainFlat, stylePart, styleSrc, hn, ih hi.2 hok.2 hr]
+    | cls d v =>
+      have hr : (r.filter isStyle).length ≤ 1 := by simpa [List.filter_cons, isStyle] using h
+      simp [inertAttrView, plainFlat, stylePart, styleSrc, sClass_ne_sStyle, ih hi.2 hok.2 hr]
+    | boolDyn n b => simp [attrInert] at hi
+    | clsToggle n b => simp [attrInert] at hi
+    | clsTuple n b => simp [attrInert] at hi
+    | styleKV d n v => simp [attrInert] at hi
+
+theorem otherPart_inert (attrs : List TAttr) (hi : attrs.all attrInert = true) (hok : attrs.all tattrOK = true) :
+    otherPart (plainFlat (attrs.map inertAttrView)) = plainDen attrs := by
+  induction attrs with
+  | nil => rfl
+  | cons a r ih =>
+    simp only [List.all_cons, Bool.and_eq_true] at hi hok
+    have ih' := ih hi.2 hok.2
+    cases a with
+    | plain d n v =>
+      have := hok.1; simp only [tattrOK, plainNameOK, Bool.and_eq_true, bne_iff_ne, ne_eq] at this
+      simp [inertAttrView, plainFlat, otherPart, plainDen, this.1.1.2, this.1.2, ih']
+    | flag n =>
+      have := hok.1; simp only [tattrOK, plainNameOK, Bool.and_eq_true, bne_iff_ne, ne_eq] at this
+      simp [inertAttrView, plainFlat, otherPart, plainDen, this.1.2, this.2, ih']
+    | cls d v => simp [inertAttrView, plainFlat, otherPart, plainDen, ih']
+    | style d v => simp [inertAttrView, plainFlat, otherPart, plainDen, ih']
+    | boolDyn n b => simp [attrInert] at hi
+    | clsToggle n b => simp [attrInert] at hi
+    | clsTuple n b => simp [attrInert] at hi
+    | styleKV d n v => simp [attrInert] at hi
+
+/-- **attributes, inert path (meaning)** -/
+theorem normAttrs_inert (attrs : List TAttr) (hi : attrs.all attrInert = true) (h : tattrsOK attrs = true) :
+    normAttrs (expectedAttrs (attrs.map inertAttrView)) = denAttrs attrs := by
+  simp only [tattrsOK, Bool.and_eq_true, decide_eq_true_eq] at h
+  obtain ⟨⟨⟨hok, _⟩, hc⟩, hs⟩ := h
+  obtain ⟨s1, s2⟩ := sort_inert attrs hi
+  rw [expectedAttrs_inert]
+  unfold normAttrs denAttrs
+  rw [otherPart_inert attrs hi hok, classPart_inert attrs hi hok hc, stylePart_inert attrs hi hok hs, s1, s2]
+
+
+/-! ### the inert subtree as a tachys view: adjacent literals are one string, empty ones vanish -/
+
+def consTextNode (s : Str) : List Node → List Node
+  | .text s' :: r => .text (s ++ s') :: r
+  | r => if s = [] then r else .text s :: r
+
+def inertKidsView : List Tmpl → List Node
+  | [] => []
+  | .text s :: ts => consTextNode s (inertKidsView ts)
+  | .block s :: ts => consTextNode s (inertKidsView ts)
+  | .elem tag attrs kids :: ts =>
+    .elem tag (attrs.map inertAttrView) (if macroIsVoid tag then [] else inertKidsView kids) :: inertKidsView ts
+  | .frag _ :: ts => inertKidsView ts
+  | .comp _ :: ts => inertKidsView ts
+
+def inertView : Tmpl → Node
+  | .elem tag attrs kids =>
+    .elem tag (attrs.map inertAttrView) (if macroIsVoid tag then [] else inertKidsView kids)
+  | .text s => .text s
+  | .block s => .text s
+  | .frag _ => .text []
+  | .comp _ => .text []
 
 end Leptos.Macro
